@@ -304,6 +304,16 @@ class Collector:
                     cat, own = self.owner(mi, v.value, fn_args, {}, in_cm)
                     if cat in ('class', 'family'):
                         aliases[nm] = ('alias', (cat, own, v.attr))
+        # a loop variable that runs over classes (`for owner in cls.__mro__`, `.__bases__`, `.__subclasses__()`, `subclasses(x)`):
+        # an attribute assignment through it is a class-level write that can reach the shared base classes
+        for n in own_nodes:
+            if isinstance(n, (ast.For, ast.comprehension)) and isinstance(n.target, ast.Name):
+                it = n.iter
+                over_classes = any((isinstance(x, ast.Attribute) and x.attr in ('__mro__', '__bases__', '__subclasses__'))
+                                   or (isinstance(x, ast.Call) and isinstance(x.func, ast.Name) and x.func.id in ('subclasses', 'getmro'))
+                                   for x in ast.walk(it))
+                if over_classes:
+                    aliases[n.target.id] = ('family', 'mro')
         for n in own_nodes:
             tg, how = [], 'set'
             if isinstance(n, ast.Assign):
@@ -348,7 +358,7 @@ class Collector:
                         c2, own2, attr2 = own
                         self.add(mi, n, fn.name, c2, own2, attr2, 'inner-' + h)
                     else:
-                        self.add(mi, n, fn.name, cat, own, base.attr, h)
+                        self.add(mi, n, fn.name, cat, own, base.attr, ('mro-' + h) if own == 'mro' else h)
             if isinstance(n, ast.Call) and isinstance(n.func, ast.Attribute) and n.func.attr in MUTATORS:
                 b = n.func.value
                 if isinstance(b, ast.Name):
@@ -599,7 +609,7 @@ def build(repo):
     cells = {}
     for w in writes:
         cat = w['cat']
-        if cat == 'family' and w['owner'] in ('type(self)', 'cls'):
+        if cat == 'family' and w['owner'] in ('type(self)', 'cls', 'mro'):
             root = family_root(col, w)
             name = root + '.' + w['attr']
             fam = True
@@ -660,6 +670,9 @@ def build(repo):
         elif name.startswith('context:'):
             iso = 'perdoc'
             c['why'] = 'class created per document by Context.newcounter'
+        elif any(h.startswith('mro-') for h in hows):
+            iso = 'none'      # written through the MRO / the subclass list: the write reaches shared classes whatever is re-created per document
+            c['why'] = 'assigned through a loop over __mro__ / __bases__ / subclasses'
         elif c['family'] and ':' in name and any(subclass_of(col, name.rsplit('.', 1)[0], f) for f in perdoc):
             iso = 'perdoc'
             c['why'] = '; '.join(perdoc.values())
